@@ -67,6 +67,20 @@ def run(chk):
                     chk.fail("%s enrolment from statistics held in Dask arrays differs from the same statistics in NumPy arrays" % kind, ctx)
             except Exception as e:
                 chk.fail("%s enrolment from statistics held in Dask arrays raises %r" % (kind, e), ctx)
+        if i % 4 == 3:
+            # the result does not depend on the logging level (diagnostics are read-only)
+            import logging
+            lg_ = logging.getLogger("bob.learn.em")
+            old_level = lg_.level
+            lg_.setLevel(logging.DEBUG)
+            try:
+                dbg = m.enroll(stats)
+            finally:
+                lg_.setLevel(old_level)
+            zdbg = np.asarray(dbg[0] if kind == "isv" else dbg[1], dtype=float).ravel()
+            chk.count(1, key=("debug-logging", kind))
+            if not np.array_equal(zdbg, np.asarray(z).ravel()):
+                chk.fail("%s enrolment gives other factors when the package logger is at DEBUG level" % kind, ctx)
         if i % 4 == 2:
             again = m.enroll(stats)          # same machine, same sessions: an enrolment does not depend on the previous one
             za = np.asarray(again[0] if kind == "isv" else again[1], dtype=float).ravel()
